@@ -31,4 +31,11 @@ LexDone   == pos > Len(input)
 LexAgrees == LexDone => LET r == Lex(input) IN
                           IF failed THEN ~r.ok ELSE r.ok /\ r.ts = toks
 LexProgress == [][pos' > pos]_lexvars
+
+\* all strings of length <= 4 over an alphabet that contains every kind of
+\* token start, the three delimiters, a backslash, a blank and an invalid byte
+Alphabet == {97, 48, 46, 91, 93, 63, 42, 34, 39, 96, 92, 32, 36, 45, 38, 124, 0 - 1, 233}
+RECURSIVE Strings(_)
+Strings(n) == IF n = 0 THEN {<<>>} ELSE LET S == Strings(n - 1) IN S \cup { Append(q, c) : q \in {x \in S : Len(x) = n - 1}, c \in Alphabet }
+LexSpec == LexInit(Strings(4)) /\ [][LexNext]_lexvars
 =============================================================================
